@@ -91,6 +91,9 @@ fn alphabet() -> Vec<Tpl> {
         tpl("a = (a = 1) + a", Some("a"), &["a", "a"], &["a"]),
         tpl("(() => (b = 1))()", None, &[], &["b"]),
         tpl("f = () => do {\n a = a + 1\n return a\n}", Some("f"), &["f"], &["a", "f"]),
+        // an anonymous function held in a list, with a late-bound free name; a do-block local of that name bound to it
+        tpl("c = [x => a]", Some("c"), &["c"], &["a", "c"]),
+        tpl("b = do {\n a = c[0]\n return 1\n}", Some("b"), &["b"], &["a", "b", "c"]),
         // parameters named like the reserved top-level name `inputs` (required, optional, rest)
         tpl("((inputs) => inputs + 1)(5)", None, &[], &[]),
         tpl("((q, inputs?) => [q, inputs])(1)", None, &[], &[]),
@@ -313,19 +316,33 @@ impl<'a> Monitor<'a> {
         {
             let new_names: Vec<&String> = after.keys().filter(|k| !before.contains_key(*k)).collect();
             let mut now: BTreeMap<String, Vec<crate::rt::ROut>> = BTreeMap::new();
-            for (name, (fval, snap)) in self.model.iter() {
+            // functions held in a list count too (their first element is probed as NAME[0](3))
+            let held: Vec<(String, Value, RVal, String)> = self
+                .model
+                .iter()
+                .filter_map(|(name, (v, snap))| match snap {
+                    RVal::Fn { .. } => Some((name.clone(), *v, snap.clone(), name.clone())),
+                    RVal::List(items) => match items.first() {
+                        Some(f @ RVal::Fn { .. }) => Some((name.clone(), *v, f.clone(), format!("{}[0]", name))),
+                        _ => None,
+                    },
+                    _ => None,
+                })
+                .collect();
+            for (name, fval, snap, callee) in held.iter() {
+                let (name, fval, snap) = (name, fval, snap);
                 if let RVal::Fn { body, .. } = snap {
                     if FORBIDDEN.contains(&name.as_str()) {
                         continue;
                     }
-                    let results: Vec<crate::rt::ROut> = [format!("{}(3)", name), format!("{}()", name)].iter().map(|src| self.sess.rout(&self.sess.eval(src))).collect();
+                    let results: Vec<crate::rt::ROut> = [format!("{}(3)", callee), format!("{}()", callee)].iter().map(|src| self.sess.rout(&self.sess.eval(src))).collect();
                     if let Some(prev) = self.probes.get(name) {
                         let words: Vec<&str> = body.split(|c: char| !(c.is_alphanumeric() || c == '_')).collect();
                         let excused = new_names.iter().any(|n| words.contains(&n.as_str()));
                         // (error messages are not compared: they may mention the name a function was last given)
                         let same = prev.len() == results.len() && prev.iter().zip(results.iter()).all(|(p, q)| p.agrees(q));
                         if !same && !excused {
-                            v.push(("function-behaviour-changed".to_string(), "a bound function returns something else for the same arguments after a later statement that bound none of its free names".to_string(), case(json!({"name": name, "function": snap.show(), "calls": [format!("{}(3)", name), format!("{}()", name)], "before": prev.iter().map(|r| r.show()).collect::<Vec<_>>(), "after": results.iter().map(|r| r.show()).collect::<Vec<_>>()}))));
+                            v.push(("function-behaviour-changed".to_string(), "a bound function returns something else for the same arguments after a later statement that bound none of its free names".to_string(), case(json!({"name": name, "function": snap.show(), "calls": [format!("{}(3)", callee), format!("{}()", callee)], "before": prev.iter().map(|r| r.show()).collect::<Vec<_>>(), "after": results.iter().map(|r| r.show()).collect::<Vec<_>>()}))));
                         }
                     }
                     // I8 do-block locals and parameters of a caller are not visible inside the function: called from a block
@@ -343,8 +360,10 @@ impl<'a> Monitor<'a> {
                     };
                     let words: Vec<&str> = body.split(|c: char| !(c.is_alphanumeric() || c == '_')).collect();
                     let small = ["a", "b", "c", "t"];
-                    if small.iter().filter(|n| words.contains(*n)).all(|n| known.iter().any(|k| k == n)) {
-                        for (call, top) in [format!("{}(3)", name), format!("{}()", name)].iter().zip(results.iter()) {
+                    // (only for functions bound to a name directly: for a function held in a list the list's creation time
+                    // says nothing about when the function was defined)
+                    if callee == name && small.iter().filter(|n| words.contains(*n)).all(|n| known.iter().any(|k| k == n)) {
+                        for (call, top) in [format!("{}(3)", callee), format!("{}()", callee)].iter().zip(results.iter()) {
                             let shadowers: Vec<&str> = small.iter().copied().filter(|n| *n != name.as_str()).collect();
                             let in_block = format!("do {{\n{}\n return {}\n}}", shadowers.iter().map(|n| format!(" {} = 12345", n)).collect::<Vec<_>>().join("\n"), call);
                             let in_call = format!("(({}) => {})({})", shadowers.join(", "), call, shadowers.iter().map(|_| "12345").collect::<Vec<_>>().join(", "));
